@@ -277,6 +277,43 @@ theorem stats_true (recs : List Rec) (h : SortedInput recs) :
   · intro he
     exact inv.len0 (by rw [he]; rfl)
 
+/-- `stats_true` for CSI (every geometry): per-reference statistics, unplaced counter and reference
+count of an index built from a coordinate-sorted sequence are the true ones -/
+theorem csi_stats_true (ms d : Nat) (recs : List Csi.CRec) (h : Csi.CSortedInput ms d recs) :
+    (∀ (j : Nat) (ref : Csi.CRef), (Hts.Props.C04.csiBuilt ms d recs).refs[j]? = some ref →
+        ref.stats = Csi.specStatsC ((recs.filter (·.placed)).filter (fun a => decide (a.rid = (j : Int))))) ∧
+    (recs ≠ [] → (Hts.Props.C04.csiBuilt ms d recs).unmapped = some (recs.countP (fun r => !r.placed))) ∧
+    (∀ l, (recs.filter (·.placed)).getLast? = some l →
+        ((Hts.Props.C04.csiBuilt ms d recs).refs.length : Int) = l.rid + 1) ∧
+    (recs.filter (·.placed) = [] → (Hts.Props.C04.csiBuilt ms d recs).refs = []) := by
+  obtain ⟨_, _, _, inv⟩ := Hts.Props.C04.csi_inv ms d recs h
+  refine ⟨?_, ?_, ?_, ?_⟩
+  · intro j ref hj
+    have := (inv.refInv j ref hj).stats
+    rw [this, Csi.statsOfC_spec]
+    congr 1
+    unfold Csi.onRef
+    rw [← List.filter_reverse, List.reverse_reverse]
+  · intro hne
+    have := Csi.addAll_unmapped Coord.reg2bin ms d recs (Hts.Props.C04.csiNew ms d) rfl rfl
+      (fun r hr => ⟨(h.ok r hr).vstart, (h.ok r hr).vstop⟩) hne
+    unfold Hts.Props.C04.csiBuilt
+    rw [this]; simp [umCount, Hts.Props.C04.csiNew]
+  · intro l hl
+    cases hrev : (recs.filter (·.placed)).reverse with
+    | nil =>
+      rw [List.reverse_eq_nil_iff] at hrev
+      rw [hrev] at hl; cases hl
+    | cons a rest =>
+      have hla : l = a := by
+        have : (recs.filter (·.placed)) = (a :: rest).reverse := by rw [← hrev, List.reverse_reverse]
+        rw [this] at hl
+        simpa using hl.symm
+      subst hla
+      exact (inv.last l rest hrev).1
+  · intro he
+    exact inv.len0 (by rw [he]; rfl)
+
 /-! ### non-vacuity (tests) -/
 
 /-- a well-formed index with two references, statistics, a sparse tile array and a trailer -/
